@@ -5,6 +5,7 @@ func init() {
 		ID:    "C10",
 		Title: "String literals are HTML-escaped on output; raw() is the exact opt-out",
 		Rules: []string{
+			"R-SCOPE / R-PATHAPI (file content): a literal stored in a variable stays that variable's value (Env.Get / Env.Set by cases); EvaluateFile hands the file's bytes to EvaluateString unchanged",
 			"R-FORMAT: every printf-like call (fmt family, and the module functions that hand a parameter on as a format: fail.New, newError, ...) gets a constant format, or the caller's own format parameter",
 			"R-CUTSET: no strings.Trim/TrimLeft/TrimRight with a constant set of several different characters on the output path (a set, not a suffix: it eats characters of the value)",
 			"R-PURE: no builtin (raw() in particular) writes through its receiver: the escaped value stays escaped in the variable it came from",
@@ -14,6 +15,8 @@ func init() {
 		NotDecided:  "TODO",
 		Assumptions: trustedBase,
 		Run: func(m *Model, s *Sink) {
+			m.RunScope(s, "R-SCOPE")                                     // a literal stored in a variable is what the variable prints: an inner binding does not overwrite an outer one
+			m.RunEvalFile(s, "R-PATHAPI")                                // a literal in a file reaches the lexer with the bytes the file has
 			m.RunObjString(s, "R-ESCAPE")                                // printing an object does not rewrite its text
 			m.RunFormat(s, "R-FORMAT", m.reachableFns(m.Roots().Render)) // no text of a template, a path or an error is used as a printf format
 			m.RunCutset(s, "R-CUTSET")
